@@ -18,11 +18,6 @@ def optVecP : P (Option Vec) := do
   let xs ← P.xs
   if xs.isEmpty then pure none else pure (xs.mapM finQ?)
 
-structure Cert where
-  idx : Nat
-  lam : Option Vec
-  b : Option Vec
-
 def certsP : P (List Cert) := do
   let n ← P.nat
   P.rep (do let i ← P.nat; let l ← optVecP; let b ← optVecP; pure ⟨i, l, b⟩) n
@@ -41,30 +36,6 @@ def domMargin (vs : List Vec) : Rat :=
     (List.zipWith (fun x y => minQ (absQ (x - y + tS)) (absQ (x - y + minQ x y * tG))) a b).foldl minQ m) m) 1
 
 def showVec (v : Vec) : String := "[" ++ " ".intercalate (v.map ratStr) ++ "]"
-
-/-- corners, edge midpoints and the centre of the simplex of dimension `S` -/
-def probeBeliefs (S : Nat) : List Vec :=
-  let unit := fun (i : Nat) => (List.range S).map (fun s => if s == i then (1 : Rat) else 0)
-  let mids := (List.range S).flatMap (fun i => ((List.range S).filter (fun j => i < j)).map (fun j =>
-    (List.range S).map (fun s => if s == i || s == j then (1 : Rat) / 2 else 0)))
-  (List.range S).map unit ++ mids ++ (if S == 0 then [] else [(List.range S).map (fun _ => (1 : Rat) / S)])
-
-inductive Env where | ok | bad | undecided
-  deriving BEq
-
-/-- is removed vector `r` within `eps` of the envelope of `kept`, as far as the certificates decide -/
-def envelopeClause (S : Nat) (eps : Rat) (kept : List Vec) (r : Vec) (c : Option Cert) : Env :=
-  if pairwiseOK eps kept r then .ok else
-  match c with
-  | none => if (probeBeliefs S).any (fun b => violationOK S eps kept b r) then .bad else .undecided
-  | some c =>
-    let fk := match c.lam.bind normalize with
-      | some l => farkasOK S eps kept l r
-      | none => false
-    if fk then .ok else
-    -- violated envelope: the certificate's belief, or (independent of any LP) a corner, an edge midpoint, the centre
-    let cands := (match c.b.bind normalize with | some b => [b] | none => []) ++ probeBeliefs S
-    if cands.any (fun b => violationOK S eps kept b r) then .bad else .undecided
 
 structure Acc where
   v : Verdict := {}
